@@ -202,6 +202,10 @@ class UdpInverterProtocol(InverterProtocol, asyncio.DatagramProtocol):
                     self._close_transport()
                 return await self.send_request(command)
             return self._max_retries_reached()
+        except OSError:
+            # the request ends with a socket error (e.g. the socket for a retry could not be created)
+            self._retry = 0
+            raise
         finally:
             if self._lock and self._lock.locked():
                 self._lock.release()
